@@ -31,7 +31,7 @@ COMPONENTS = {'real': ['compiled enspara.info_theory.libinfo (unmodified generat
 ASSUMPTIONS = ['at least one frame per trajectory (zero frames is outside the statement)',
                'state counts >= 2 per feature for channel-capacity normalisation (the routine asserts it)',
                'floating tolerances for the algebraic laws: 1e-9 absolute / relative']
-REACH_EXPECTED = ['invalid_length_long_inputs', 'ids_beyond_the_signed_range_of_the_other_side', 'invalid_negative_beside_unsigned', 'state_counts_in_a_narrow_integer_type', 'pooled_trajectories_serial_variant', 'weighted_many_states_narrow_type', 'views_sharing_first_element', 'long_trajectory', 'team_ge_2', 'one_thread_per_feature', 'different_feature_counts', 'different_state_counts',
+REACH_EXPECTED = ['weights_almost_normalised', 'invalid_length_long_inputs', 'ids_beyond_the_signed_range_of_the_other_side', 'invalid_negative_beside_unsigned', 'state_counts_in_a_narrow_integer_type', 'pooled_trajectories_serial_variant', 'weighted_many_states_narrow_type', 'views_sharing_first_element', 'long_trajectory', 'team_ge_2', 'one_thread_per_feature', 'different_feature_counts', 'different_state_counts',
                   'mixed_dtypes', 'self_counts', 'invalid_negative', 'invalid_too_large', 'invalid_length', 'invalid_mixed_dtypes', 'pooled_trajectories',
                   'weighted_uniform', 'relabel_invariance', 'permutation_invariance', 'schedule_pair_compared']
 INTS = ('int8', 'int16', 'int32', 'int64', 'uint8', 'uint16', 'uint32', 'uint64')
@@ -81,8 +81,8 @@ def model_entropy(counts):
     return float(-(p * np.log(p)).sum())
 
 
-def run_kernel(ctx, fn, args, T, dec):
-    native.gomp(T, True, dec)
+def run_kernel(ctx, fn, args, T, dec, iso=True):
+    native.gomp(T, iso, dec)
     native.gomp_stats(reset=True)
     native.reset_redzone()
     try:
@@ -93,6 +93,8 @@ def run_kernel(ctx, fn, args, T, dec):
         native.gomp(1, False, None)
     if bad:
         raise SimViolation('out_of_bounds_write', '%d heap buffers with damaged red zones after the call' % bad)
+    if st['sync_seen']:
+        ctx.count('critical_sections_in_regions', st['sync_seen'])
     ctx.steps += st['switches'] + st['barriers']
     ctx.count('parallel_regions', st['regions'])
     ctx.count('virtual_thread_switches', st['switches'])
@@ -273,6 +275,13 @@ def laws(ctx, t, mi, entropy, A, B, jc, na, nb, self_mode, wna, wnb):
                 (dt2, k2, np.asarray(W2).tolist(), np.asarray(I2).tolist()))
         ctx.postcond('weighted_uniform_equals_unweighted')
         ctx.hit('weighted_many_states_narrow_type')
+    # weights that are uniform but not normalised to the last bit (sums a few 1e-6 off one): the estimator normalises them
+    if self_mode and t.flag(1, 3):
+        dlt = t.choice((1e-6, -3e-6, 1e-7, 4e-6))
+        Wn = ctx.sut(mi.weighted_mi, A.astype(np.int64), np.full(len(A), (1.0 + dlt) / len(A)), np.full(A.shape[1], wna), False)
+        require(close(Wn, np.clip(I, 0, None), 1e-8), 'weighted_mi_differs', lambda: 'weighted_mi with uniform weights summing to 1%+.0e: %s vs MI %s' %
+                (dlt, np.asarray(Wn).tolist(), np.asarray(I).tolist()))
+        ctx.hit('weights_almost_normalised')
     # relabelling states and permuting frames leave MI unchanged
     if t.flag():
         pa, pb = np.array(t.perm(wna)), np.array(t.perm(wnb))
